@@ -113,7 +113,14 @@ def gen_names(repo, out):
     return hashlib.sha256(src.encode()).hexdigest()[:16]
 
 
-ALL = {"Slice": gen_slice, "SqlRange": gen_sqlrange, "Names": gen_names}
+def gen_static(repo, out):
+    import static_scan
+    a = static_scan.emit_dataclasses(repo, out)
+    b = static_scan.emit_write_sites(repo, out)
+    return a + "+" + b
+
+
+ALL = {"Slice": gen_slice, "SqlRange": gen_sqlrange, "Names": gen_names, "Static": gen_static}
 
 
 def generate(repo, out, only=None):
@@ -128,8 +135,9 @@ def generate(repo, out, only=None):
         except Refuse as r:
             res[name] = f"REFUSED: {r}"
             # make the generated file uncompilable so that dependents fail closed
-            with open(os.path.join(out, name + ".v"), "w") as fh:
-                fh.write(f"(* translator refused: {r} *)\nTranslator refused this unit.\n")
+            for fname in {"Static": ["Dataclasses", "WriteSites"]}.get(name, [name]):
+                with open(os.path.join(out, fname + ".v"), "w") as fh:
+                    fh.write(f"(* translator refused: {r} *)\nTranslator refused this unit.\n")
     return res
 
 
